@@ -116,13 +116,29 @@ func c04ReadLoops(c *core.Ctx) {
 func c04Delegated(b *ssa.BasicBlock, errv ssa.Value) bool {
 	for _, in := range b.Instrs {
 		cl, ok := in.(*ssa.Call)
-		if !ok || cl.Call.IsInvoke() || cl.Call.StaticCallee() != nil {
+		if !ok || cl.Call.IsInvoke() {
 			continue
 		}
 		has := false
-		for _, a := range cl.Call.Args {
-			if core.Strip(a) == errv {
-				has = true
+		for i, a := range cl.Call.Args {
+			if core.Strip(a) != errv {
+				continue
+			}
+			if g := cl.Call.StaticCallee(); g == nil {
+				has = true // a callback (function value) receives the error
+			} else if g.Blocks != nil && i < len(g.Params) {
+				// a helper of the face that hands the error on to such a callback
+				// (readFailed(err) bool { ...; return f.onError(err) != nil })
+				par := ssa.Value(g.Params[i])
+				core.Instrs(g, func(in2 ssa.Instruction) {
+					if c2, ok2 := in2.(*ssa.Call); ok2 && !c2.Call.IsInvoke() && c2.Call.StaticCallee() == nil {
+						for _, a2 := range c2.Call.Args {
+							if core.Strip(a2) == par {
+								has = true
+							}
+						}
+					}
+				})
 			}
 		}
 		if !has {
